@@ -683,10 +683,58 @@ Proof.
     rewrite (tp_id p Hwf).
     destruct (sym_fold_spec p tl [(mat_id, p)]) as ((ext & Hext) & _).
     { repeat constructor. simpl. tauto. }
-    exists ext. rewrite Hext. reflexivity.
+    exists ext. exact Hext.
   - assumption.
   - intros Hq. apply Hin in Hq. destruct Hq as [[]|Hq]. assumption.
   - intros Hq. apply Hin. right. assumption.
   - apply Hpair in H. destruct H as [[]|(H & _)]. assumption.
   - apply Hpair in H. destruct H as [[]|(_ & H)]. assumption.
+Qed.
+
+(* ================= 8. the eight matrices are the symmetry group of the square ================= *)
+(* finite part (computed on the regenerated matrices) + the maps they induce *)
+Theorem syms_are_D4 :
+  length syms = 8%nat /\ NoDup syms /\
+  (* pairwise distinct as maps of any board with at least 2 squares a side *)
+  (forall n g h, 2 <= n -> In g syms -> In h syms ->
+     (forall x y, 0 <= x < n -> 0 <= y < n -> apply_sym g n (x, y) = apply_sym h n (x, y)) -> g = h) /\
+  (* identity *)
+  (In mat_id syms /\ forall n v, apply_sym mat_id n v = v) /\
+  (* closed under composition; composition of maps = matrix product *)
+  (forall g h, In g syms -> In h syms ->
+     In (mat_mul g h) syms /\ forall n v, apply_sym (mat_mul g h) n v = apply_sym g n (apply_sym h n v)) /\
+  (* closed under inverse *)
+  (forall g, In g syms ->
+     In (sym_inv g) syms /\ mat_mul g (sym_inv g) = mat_id /\ mat_mul (sym_inv g) g = mat_id /\
+     forall n v, apply_sym (sym_inv g) n (apply_sym g n v) = v /\ apply_sym g n (apply_sym (sym_inv g) n v) = v) /\
+  (* the linear parts are exactly the 8 signed permutation matrices *)
+  (forall a b c d, In [[a; b]; [c; d]] (map lin2 syms) <-> signed_perm a b c d).
+Proof.
+  split; [exact syms_length|]. split; [exact syms_distinct|].
+  split; [exact sym_distinct_maps|].
+  split; [split; [exact mat_id_in_syms|exact sym_id]|].
+  split; [intros g h Hg Hh; split; [apply syms_closed_mul; assumption|intros n v; apply sym_compose; assumption]|].
+  split; [|exact syms_lin_signed_perms].
+  intros g Hg. destruct (syms_closed_inv g Hg) as (H1 & H2 & H3). repeat split; try assumption.
+  - apply sym_inv_l; assumption.
+  - apply sym_inv_r; assumption.
+Qed.
+
+(* general in the board size: each matrix is a bijection of [0,size)^2 that
+   preserves orthogonal adjacency (and sends off-board squares off the board) *)
+Theorem sym_square_bijection n g : In g syms ->
+  (forall x y, (0 <= fst (apply_sym g n (x, y)) < n /\ 0 <= snd (apply_sym g n (x, y)) < n) <->
+               (0 <= x < n /\ 0 <= y < n)) /\
+  (forall v w, apply_sym g n v = apply_sym g n w -> v = w) /\
+  (forall x y, 0 <= x < n -> 0 <= y < n ->
+     exists u w, 0 <= u < n /\ 0 <= w < n /\ apply_sym g n (u, w) = (x, y)) /\
+  (forall a b, adjacent (apply_sym g n a) (apply_sym g n b) = adjacent a b).
+Proof.
+  intros Hg. split; [intros x y; apply sym_on_board; assumption|].
+  split; [intros v w; apply sym_injective; assumption|].
+  split; [|intros a b; apply sym_adjacent; assumption].
+  intros x y Hx Hy.
+  pose proof (proj2 (sym_on_board (sym_inv g) n x y (sym_inv_in g Hg)) (conj Hx Hy)) as Hi.
+  destruct (apply_sym (sym_inv g) n (x, y)) as [u w] eqn:E. simpl in Hi.
+  exists u, w. split; [tauto|]. split; [tauto|]. rewrite <- E. apply sym_inv_r. assumption.
 Qed.
